@@ -271,6 +271,27 @@ def startupS (v : String → Bool) : SSt :=
 
 def startupW (e : Env) : WSt := concW e {} (startupS e.v)
 
+/-- One lifecycle call made by `New`. -/
+def callS (v : String → Bool) (f : String) (w : SSt) : SSt :=
+  if f = "openTty" then { w with fresh := true }
+  else if f = "sendQueries" then sendQueriesS w
+  else match table f with
+    | some body => interpS v 64 body w
+    | none => w
+
+/-- `New` failing at the error exit that tests the error of `exit` (`Gen.Modes.newSequence`, regenerated
+    from the body of `New`): the lifecycle calls made up to that exit, then the ones made inside it
+    before `return nil, err`. -/
+def startupFailS (v : String → Bool) (exit : String) : List (String × String × List String) → SSt → SSt
+  | [], w => w
+  | (kind, name, calls) :: rest, w =>
+    if kind = "err" then
+      (if name = exit then calls.foldl (fun w f => callS v f w) w else startupFailS v exit rest w)
+    else startupFailS v exit rest (callS v name w)
+
+/-- `New` failing when the window size cannot be read — the one error exit after the terminal has been set up. -/
+def startupFailW (e : Env) : WSt := concW e {} (startupFailS e.v "vx.reportWinsize" newSequence {})
+
 def suspendW (e : Env) (w : WSt) : WSt := interp e 64 suspend w
 def resumeW (e : Env) (w : WSt) : WSt := interp e 64 resume w
 
